@@ -4,6 +4,7 @@ CONSTANTS
   WLo = @WLO@
   WHi = @WHI@
   Scale = @SCALE@
+  AnyOrder = @ANYORDER@
   MaxConn = 0
   MaxPicks = @PICKS@
   MaxFlips = 0
